@@ -25,9 +25,10 @@ theorem deTop_serTop (cfg : Cfg) (ver : Ver) (e : Endian) (t : Ty) (v : Val) :
     the serializer's final position.
 
     `wfVal` admits: all primitives, strings (valid UTF-8), wide strings (UTF-16 code units without unpaired surrogates,
-    characters outside the BMP included), enumerations of any declared extensibility (value among the literals), FINAL unions
+    characters outside the BMP included), enumerations of any declared extensibility (value among the literals), FINAL and APPENDABLE unions
     (discriminator of one of the six integer kinds the decoder accepts; several labels per branch; the default branch at any
-    position; the branch the writer set is the one the discriminator selects; unions nested in unions, collections of unions), sequences and
+    position; the branch the writer set is the one the discriminator selects, or no branch at all when the discriminator
+    selects none; unions nested in unions, collections of unions), sequences and
     arrays of primitive / string / enum / structure elements, final, appendable and mutable structures nested
     arbitrarily, optional and must-understand members, absent optional members, member ids in any order.
     It excludes exactly (suffix `_partial`; each exclusion is an open finding with a kernel-checked witness below and
@@ -35,7 +36,7 @@ theorem deTop_serTop (cfg : Cfg) (ver : Ver) (e : Endian) (t : Ty) (v : Val) :
     * per configuration: XCDR1 optional members need D46 + D61, XCDR1 mutable structures D45 + D61, XCDR2 mutable
       structures D47 (all repaired in `Cfg.fixed`; the unchanged tree fails, witnesses `C09_xcdr1_mutable_u64_…`,
       `C09_xcdr1_optional_…`, `C09_xcdr2_nested_mutable_…`, `C09_xcdr1_origin_not_popped_…`);
-    * CHAR8 values >= 128 (D63); member ids of a mutable structure equal modulo 2^16 (D15);
+    * member ids of a mutable structure equal modulo 2^16 (D15) (CHAR8 128..255 is inside since the repair of D63);
     * XCDR1 parameter headers: id (mod 2^16) >= 2^14 or u16 overflow with the must-understand flag (D68, D64),
       id 1 in a mutable structure (D67, `PID_SENTINEL`), a member value of 0 or more than 65535 bytes (D69, D68),
       a mutable structure without members;
@@ -72,9 +73,9 @@ example : wfVal Cfg.fixed .v1 (.struct .final (.cons 0 false false .wstr .nil)) 
 /-- final unions are inside the theorem: the default branch declared FIRST and a discriminator that selects the explicit case
     declared after it (`<5,1:…>`), the default branch itself (`<9,2:…>`), a signed discriminator, a union in a sequence -/
 def tyUDemo : Ty := .struct .final (.cons 0 false false
-    (.union .i32 (.cons 2 [] true (.prim .i16) (.cons 1 [5, 7] false (.prim .i64) .nil)))
+    (.union false .i32 (.cons 2 [] true (.prim .i16) (.cons 1 [5, 7] false (.prim .i64) .nil)))
   (.cons 1 false false (.prim .u32)
-  (.cons 2 false false (.seq (.union .i8 (.cons 1 [-1] false (.prim .u8) (.cons 3 [] true .wstr .nil)))) .nil)))
+  (.cons 2 false false (.seq (.union false .i8 (.cons 1 [-1] false (.prim .u8) (.cons 3 [] true .wstr .nil)))) .nil)))
 def valUDemo1 : Val := .struct [.struct [.num 5, .num 1, .num 0x010203040506], .num 0xdeadbeef,
   .list [.struct [.num 255, .num 1, .num 7], .struct [.num 4, .num 3, .list [.num 97]]]]
 def valUDemo2 : Val := .struct [.struct [.num 9, .num 2, .num 65534], .num 0xdeadbeef, .list []]
@@ -85,14 +86,35 @@ example : wfVal Cfg.fixed .v1 tyUDemo valUDemo1 = true ∧ wfVal Cfg.fixed .v2 t
 example : (tyUDemo, Bs.selIdx 5 (.cons 2 [] true (.prim .i16) (.cons 1 [5, 7] false (.prim .i64) .nil))).2 = some 1 := by
   decide
 
-/-- **D80** (outside `wfVal`): a union without default branch whose discriminator selects no case is serialized
-    (discriminator only) and not decodable: `InvalidData`. Replay `rt 2 le SF{0:UFu8{1[5]:i64}} {<6>}`. -/
-theorem C09_union_no_branch_counterexample :
-    wfVal Cfg.fixed .v2 (.struct .final (.cons 0 false false (.union .u8 (.cons 1 [5] false (.prim .i64) .nil)) .nil))
-      (.struct [.struct [.num 6]]) = false ∧
-    (deTop Cfg.fixed (.struct .final (.cons 0 false false (.union .u8 (.cons 1 [5] false (.prim .i64) .nil)) .nil))
-      (serTop Cfg.fixed .v2 .le (.struct .final (.cons 0 false false (.union .u8 (.cons 1 [5] false (.prim .i64) .nil)) .nil))
-        (.struct [.struct [.num 6]]))).val? = none := by
+/-- **D80** (repaired by fixes/D80-xcdr.patch): a union without default branch whose discriminator selects no case is
+    serialized as the discriminator alone; the decoder used to answer `InvalidData`, now it yields the value with no
+    active member and the value is inside `wfVal`. Replay `rt 2 le SF{0:UFu8{1[5]:i64}} {<6>}`. -/
+theorem C09_union_no_branch_roundtrip :
+    wfVal Cfg.fixed .v2 (.struct .final (.cons 0 false false (.union false .u8 (.cons 1 [5] false (.prim .i64) .nil)) .nil))
+      (.struct [.struct [.num 6]]) = true ∧
+    (deTop Cfg.fixed (.struct .final (.cons 0 false false (.union false .u8 (.cons 1 [5] false (.prim .i64) .nil)) .nil))
+      (serTop Cfg.fixed .v2 .le (.struct .final (.cons 0 false false (.union false .u8 (.cons 1 [5] false (.prim .i64) .nil)) .nil))
+        (.struct [.struct [.num 6]]))).val? = some (.struct [.struct [.num 6]]) := by
+  decide +kernel
+
+/-- appendable unions (D77 / D78 repaired) are inside the theorem: as member under XCDR1 and XCDR2, in a sequence, nested -/
+def tyUADemo : Ty := .struct .appendable (.cons 0 false false
+    (.union true .i32 (.cons 1 [5] false (.prim .u8) (.cons 2 [] true (.prim .u16) .nil)))
+  (.cons 1 false false (.prim .u32)
+  (.cons 2 false false (.seq (.union true .u16 (.cons 1 [2] false .wstr (.cons 3 [] true (.prim .u8) .nil)))) .nil)))
+def valUADemo : Val := .struct [.struct [.num 5, .num 1, .num 7], .num 9,
+  .list [.struct [.num 2, .num 1, .list [.num 97]], .struct [.num 0, .num 3, .num 1]]]
+example : wfVal Cfg.fixed .v1 tyUADemo valUADemo = true ∧ wfVal Cfg.fixed .v2 tyUADemo valUADemo = true := by decide +kernel
+/-- regression witness for D77: under XCDR1 an appendable union is written WITHOUT a DHEADER (the old decoder read one),
+    under XCDR2 with one: `SF{0:UAi32{1[5]:u8,2d:u16},1:u32} {<5,1:7>,9}` -/
+theorem C09_appendable_union_bytes :
+    serTop Cfg.fixed .v1 .le (.struct .final (.cons 0 false false
+        (.union true .i32 (.cons 1 [5] false (.prim .u8) (.cons 2 [] true (.prim .u16) .nil))) (.cons 1 false false (.prim .u32) .nil)))
+      (.struct [.struct [.num 5, .num 1, .num 7], .num 9]) = [0, 1, 0, 0, 5, 0, 0, 0, 7, 0, 0, 0, 9, 0, 0, 0] ∧
+    serTop Cfg.fixed .v2 .le (.struct .final (.cons 0 false false
+        (.union true .i32 (.cons 1 [5] false (.prim .u8) (.cons 2 [] true (.prim .u16) .nil))) (.cons 1 false false (.prim .u32) .nil)))
+      (.struct [.struct [.num 5, .num 1, .num 7], .num 9]) =
+        [0, 7, 0, 0, 5, 0, 0, 0, 5, 0, 0, 0, 7, 0, 0, 0, 9, 0, 0, 0] := by
   decide +kernel
 
 theorem padCount_lt (n : Nat) : padCount n < 4 := by unfold padCount; omega
@@ -203,9 +225,13 @@ theorem C09_xcdr2_lc5_primitive_sequence_counterexample :
       = some (.struct [.list [.num 1, .num 2, .num 3], .absent]) := by decide +kernel
 
 def tyD63 : Ty := .struct .final (.cons 0 false false (.prim .c8) .nil)
-/-- D63: CHAR8 200 is written as the two UTF-8 bytes c3 88 and read back as 195 -/
-theorem C09_char8_counterexample :
-    (deTop Cfg.fixed tyD63 (serTop Cfg.fixed .v1 .le tyD63 (.struct [.num 200]))).val? = some (.struct [.num 195]) := by
+/-- D63 (repaired by fixes/D63-xcdr.patch): CHAR8 200 was written as the two UTF-8 bytes c3 88 (`c8BytesOld`) and read
+    back as 195; the repaired serializer writes the one byte c8 and the value round-trips (it is inside `wfVal` now:
+    `primOk .c8` admits 0..255). Regression witness. -/
+theorem C09_char8_old_counterexample :
+    c8BytesOld 200 = [0xc3, 0x88] ∧ c8Bytes 200 = [0xc8] ∧
+    wfVal Cfg.fixed .v1 tyD63 (.struct [.num 200]) = true ∧
+    (deTop Cfg.fixed tyD63 (serTop Cfg.fixed .v1 .le tyD63 (.struct [.num 200]))).val? = some (.struct [.num 200]) := by
   decide +kernel
 
 def tyD65 : Ty := .struct .final
